@@ -12,7 +12,11 @@ def generic(c, hprop, prop_files, lemma_files, what_tie, rule, nontrivial, assum
     stats = {}
     if c.replay:
         extra_args += " -replay " + os.path.abspath(c.replay)
-    if not c.build_impl():
+    built = c.build_impl()
+    if built and hprop == "c15":
+        c.cdrv = c.build_cdrv()
+        built = c.cdrv is not None
+    if not built:
         path = c.write_replay("build", {"kind": "correspondence-broken", "correspondence": "harness build against the working tree",
                                         "notes": c.notes})
         c.violations.append((path, " no-failing-input-found"))
@@ -190,3 +194,13 @@ def check_c08(c): _stack_check(c, "c08", ["Properties/C08.v"], [], "Oracle c08_o
 def check_c09(c): _stack_check(c, "c09", ["Properties/C09.v"], [], "Oracle c09_ok: an undisturbed Add through a stale handle returns ErrLockFailure, leaves the directory unchanged and the handle refreshed; through an up-to-date handle it commits.")
 def check_c10(c): _stack_check(c, "c10", ["Properties/C10.v"], [], "Oracle c10_ok: every read returns exactly a prefix of the commit order (one committed version), monotone per handle, with the matching 'shared' value; after every call all held readers are open and the held names are one version of tables.list.")
 def check_c16(c): _stack_check(c, "c16", ["Properties/C16.v"], [], "Oracle c16_ok: whenever no handle is inside a call and none crashed, the directory holds exactly tables.list and the tables it names.")
+
+
+def check_c15(c):
+    generic(
+        c, "c15", ["Properties/C15.v"], ["Proofs/SpecProofs.v"],
+        what_tie="Go writes / C reads and C writes / Go reads (the C implementation of /repo/c built from the working tree), both judged against the source records; C-written files judged by the spec decoder; model reader = Go reader on C-written bytes",
+        rule=TABLE_RULE + "Restricted to NUL-free names and strings (C strings). non-trivial = both writers accepted the records and the table has > 200 bytes",
+        nontrivial=lambda cmd, args, impl: impl.count("#ok#") == 1 and len(impl) > 600,
+        assumptions=["the C code is not modelled: its behaviour is compared, file by file and query by query, with the records written (differential / translation validation); the Coq side contributes the spec decoder (judge of the C-written files) and the model reader (what the Go reader must return on them)",
+                     "stack directories written by one implementation and read by the other are not exercised (table files only)"])
